@@ -34,7 +34,7 @@ import (
 	"k8s.io/klog/v2"
 )
 
-var errRetry = errors.New("retry")
+var errRetry error = backoff.RetriableError("retry")
 
 // PreorderedLogClient is a means of communicating with a single Trillian
 // pre-ordered log tree.
